@@ -70,6 +70,7 @@ fn conc_share(prop: &str) -> u64 {
         "C14" => 100,
         "C09" | "C10" | "C11" => 25,
         "C04" | "C15" | "C18" | "C17" => 15,
+        "C05" | "C12" => 10,
         _ => 0,
     }
 }
